@@ -46,8 +46,14 @@ func verifBarrier(tp *TaskPool, k int) bool {
 	return done == k
 }
 
+var verifC19CustomCaller = false
+
 func verifC19Burst(bound, queue, ntasks, submitters int, panics bool, preempt int) {
 	tp := New(bound, queue)
+	if verifC19CustomCaller {
+		// the optional third argument: the function through which tasks are called
+		tp = New(bound, queue, func(f func()) { f() })
+	}
 	l := verifNewPoolLog()
 	verifSched(true, preempt)
 	per := ntasks / submitters
@@ -143,5 +149,32 @@ func verifHarness_C19_io_pool() {
 	verifJoin()
 	verifAssertD(ran == 2 && got == size, "io-task-gets-configured-buffer", "")
 	tp.Stop()
+	verifAssert(false, "witness")
+}
+
+// a pool built with a custom caller function (the optional third argument of
+// New): two bursts in a row; the number of tasks running at once stays within
+// the bound in the second burst as well (whatever the first one did to the
+// pool's bookkeeping).
+func verifHarness_C19_two_bursts_custom_caller() {
+	verifBound("tasks_per_burst", 4)
+	verifBound("preemptions", 1)
+	bound := 3
+	tp := New(bound, 4, func(f func()) { f() })
+	l := verifNewPoolLog()
+	verifSched(true, 1)
+	for burst := 0; burst < 2; burst++ {
+		base := burst * 4
+		verifGo(func() {
+			for j := 0; j < 4; j++ {
+				tp.Go(l.task(base+j, false))
+			}
+		})
+		verifJoin()
+	}
+	for id := 0; id < 8; id++ {
+		verifAssertD(l.starts[id] == 1 && l.ends[id] == 1, "task-runs-exactly-once", "custom-caller")
+	}
+	verifAssertD(l.maxRun <= bound, "running-tasks-within-bound", "custom-caller")
 	verifAssert(false, "witness")
 }
